@@ -1,6 +1,25 @@
 import Driver.JsonIO
 import RulioModel.Match
 import RulioModel.MatchSpec
+import Driver.C01
+import Driver.C02
+import Driver.C03
+import Driver.C04
+import Driver.C06
+import Driver.C07
+import Driver.C08
+import Driver.C09
+import Driver.C10
+import Driver.C11
+import Driver.C12
+import Driver.C13
+import Driver.C14
+import Driver.C15
+import Driver.C16
+import Driver.C17
+import Driver.C18
+import Driver.C19
+import Driver.C20
 open Lean
 
 def errName : MErr → String
@@ -33,7 +52,11 @@ def handle (line : String) : String :=
   | .ok c =>
     let out := match jstr c "kind" with
       | "match" => doMatch c
-      | k => Json.mkObj [("err", Json.str ("unknown kind " ++ k))]
+      | k =>
+        let tbl : List (String × (String → Json → Json)) := [("c01", handleC01), ("c02", handleC02), ("c03", handleC03), ("c04", handleC04), ("c06", handleC06), ("c07", handleC07), ("c08", handleC08), ("c09", handleC09), ("c10", handleC10), ("c11", handleC11), ("c12", handleC12), ("c13", handleC13), ("c14", handleC14), ("c15", handleC15), ("c16", handleC16), ("c17", handleC17), ("c18", handleC18), ("c19", handleC19), ("c20", handleC20)]
+        match tbl.find? (fun (e : String × (String → Json → Json)) => k.startsWith (e.1 ++ ".")) with
+        | some e => e.2 k c
+        | none => Json.mkObj [("err", Json.str ("unknown kind " ++ k))]
     out.compress
 
 partial def loop (h : IO.FS.Stream) (out : IO.FS.Stream) : IO Unit := do
